@@ -1,14 +1,22 @@
 package checks
 
 import (
+	"encoding/json"
+
 	"verif/harness"
 )
 
 func init() {
-	Runners["C06"] = queueRunner(func(p *harness.QProgram) Result { return RunC06(p, false) })
+	Runners["C06"] = func(raw json.RawMessage) (Result, error) {
+		var p harness.QProgram
+		if err := json.Unmarshal(raw, &p); err != nil {
+			return Result{}, err
+		}
+		return GuardEnum(func() Result { return RunC06(&p, false) }), nil
+	}
 	harness.Specs["C06"] = &harness.PropSpec{
 		ID: "C06", Test: "TestC06", Kind: "queue", Level: "fault_enumeration",
-		Quick: 320, Thorough: 40000,
+		Quick: 320, Thorough: 1600,
 		Rule: "evaluations = generated producer/consumer histories (as C05, incl. queue/file reopen points which are checked by drain probes) recorded on the " +
 			"simulated disk with markers around every writer call, ACK and queue close; for every op-log position after queue creation all crash images (subsets " +
 			"of un-synced writes, torn header) are reopened through txfile open + NewStandaloneDelegate + pq.New and drained: the delivered sequence must be " +
@@ -51,5 +59,6 @@ func RunC06(p *harness.QProgram, thorough bool) Result {
 	c["positions"] = st.Positions
 	c["recovered-new-in-window"] = st.RecoveredTo["new"]
 	c["recovered-old-in-window"] = st.RecoveredTo["old"]
+	c["enumeration-capped"] = st.Capped
 	return Result{V: v, Counters: c, Nontrivial: st.Nontrivial > 0}
 }
